@@ -84,3 +84,12 @@ Example C04_nonvacuous :
   option_map (fun s => (delivered 1%N 2%N s, queued 2%N s, dequeued 2%N s, queue s, dl (glog s))) (run init tr_deliver)
   = Some ([7], [7], [7], [], [{| re := 7; rw := 2; rsnap := Some [1]; rturns := [(1, true)] |}])%N.
 Proof. vm_compute. reflexivity. Qed.
+
+(* The emitter's read of _last_item and its enqueue are separate steps (LECheck, then LESkip / LEPut): a
+   dispatcher get in between is a behaviour of the model. *)
+Example C04_get_between_read_and_enqueue :
+  option_map (fun s => (queue s, qlast s, step s (LESkip 0%nat 7%N),
+                        option_map (fun s' => (queue s', qlast s')) (step s (LEPut 0%nat 7%N))))
+             (run init tr_get_between_read_and_put)
+  = Some ([], None, None, Some ([QEv 7 2], Some (QEv 7 2)))%N.
+Proof. vm_compute. reflexivity. Qed.
